@@ -399,7 +399,7 @@ def run_case(case):
         sig = "Piecewise|%s|%s" % (kind, cond)
         if sig not in sigs:
             sigs.add(sig)
-            viol.append({"sig": sig, "msg": msg[:1200]})
+            viol.append({"sig": sig, "msg": msg[:1200], "flaky": case["kind"] == "freerun"})
 
     if case["kind"] == "partition":
         cnt, ntriv = _partition(case, bad)
